@@ -21,6 +21,40 @@ ARRAY_MUT = (r"starlark::values::types::array::Array::<'v>::"
              r"(set_at|insert|push|double|extend_from_slice|clear|remove|try_extend)$")
 
 
+def post_freeze_declaring_module(ctx, F, rule="C04.R1"):
+    """FrozenDef::post_freeze optimises the body against the def's own module"""
+    # post_freeze optimises against the def's own module
+    po = F.one(r"eval::compiler::def::DefGen::<values::layout::value::FrozenValue>::post_freeze$")
+    agg = [st for st in po.stmts if st.kind.endswith("OptimizeOnFreezeContext::OptimizeOnFreezeContext")]
+    load = [c for c in po.calls if re.search(r"AtomicFrozenRefOption::<T>::load_relaxed$|load_relaxed$", c.name)]
+    good = False
+    if agg and load:
+        first = agg[0].ops[0].split(" | ")[0]
+        os_ = origins(po, first, through_all_args=False)
+        # the module operand must depend on the recorded module (Some arm of load_relaxed), not only on the parameter
+        seen = set()
+        work = locals_in(first)
+        while work:
+            l = work.pop()
+            if l in seen:
+                continue
+            seen.add(l)
+            for st in po.stmts:
+                if st.lhs_local == l:
+                    work += locals_in(st.text())
+            for c in po.calls:
+                if c.dest_local == l:
+                    if c in load:
+                        good = True
+                    for a in c.args:
+                        work += locals_in(a)
+    ctx.check(good, rule, "post_freeze:optimises-against-declaring-module",
+              "the module handed to the on-freeze optimiser depends on the def's recorded module (self.module)",
+              "FrozenDef::post_freeze optimises the body against the module being frozen instead of the module the def "
+              "was declared in: a closure exported by another module gets that module's slot contents inlined",
+              fn=po)
+
+
 def r1_freeze(ctx, F, vb):
     impls = [i for i in F.impls if re.search(FREEZE_TRAIT, i["trait"]) and i["crate"] == "starlark"]
     ctx.floor("C04.R1", "FreezeBranded impls", len(impls), 51, inventory=True)
@@ -118,36 +152,7 @@ def r1_freeze(ctx, F, vb):
     ctx.check(good, "C04.R1", "freeze_impl:post_freeze-loop",
               "post_freeze runs in a loop over frozen_defs after the frozen module data is allocated and before Ok",
               "freeze_impl no longer runs post_freeze for the frozen defs before returning", fn=fi)
-    # post_freeze optimises against the def's own module
-    po = F.one(r"eval::compiler::def::DefGen::<values::layout::value::FrozenValue>::post_freeze$")
-    agg = [st for st in po.stmts if st.kind.endswith("OptimizeOnFreezeContext::OptimizeOnFreezeContext")]
-    load = [c for c in po.calls if re.search(r"AtomicFrozenRefOption::<T>::load_relaxed$|load_relaxed$", c.name)]
-    good = False
-    if agg and load:
-        first = agg[0].ops[0].split(" | ")[0]
-        os_ = origins(po, first, through_all_args=False)
-        # the module operand must depend on the recorded module (Some arm of load_relaxed), not only on the parameter
-        seen = set()
-        work = locals_in(first)
-        while work:
-            l = work.pop()
-            if l in seen:
-                continue
-            seen.add(l)
-            for st in po.stmts:
-                if st.lhs_local == l:
-                    work += locals_in(st.text())
-            for c in po.calls:
-                if c.dest_local == l:
-                    if c in load:
-                        good = True
-                    for a in c.args:
-                        work += locals_in(a)
-    ctx.check(good, "C04.R1", "post_freeze:optimises-against-declaring-module",
-              "the module handed to the on-freeze optimiser depends on the def's recorded module (self.module)",
-              "FrozenDef::post_freeze optimises the body against the module being frozen instead of the module the def "
-              "was declared in: a closure exported by another module gets that module's slot contents inlined",
-              fn=po)
+    post_freeze_declaring_module(ctx, F)
 
 
 def r2_list(ctx, F):
@@ -437,6 +442,9 @@ def r5_mutators_acquire(ctx, F):
 def run(ctx):
     F = ctx.facts("core")
     r5_mutators_acquire(ctx, F)
+    # an augmented assignment is never optimised away (it must still fail on a frozen target): shared with C02.R9
+    from rules.C02 import r9_statements_kept
+    r9_statements_kept(ctx, F, rule="C04.R6")
     vb = ValueBearing(F)
     r1_freeze(ctx, F, vb)
     r2_list(ctx, F)
